@@ -303,6 +303,13 @@ func mergeTrace(en *Env, cfg h.Cfg, t int) (merges, mok int) {
 				e.Put(k, val())
 			}
 		}
+		if (rd > 0 && r.Intn(2) == 0) || r.Intn(6) == 0 {
+			// boundary: nothing is live when the merge runs (its output holds no record at all); after an earlier
+			// adopted merge the data directory still holds that merge's hint file
+			for k := 1; k <= nkeys && !e.Dead; k++ {
+				e.Delete(k)
+			}
+		}
 		if r.Intn(4) == 0 && !e.Dead {
 			// restart with another file-size limit before merging: the output may then need
 			// fewer, equally many or more files than the input
